@@ -617,53 +617,91 @@ Record sess := {
   j_work : option workh; j_cname : option (list Z); j_conn : option (list Z);   (* escaped *)
   j_proxies : list (list Z * list Z) }.                          (* escaped name, escaped address *)
 
-(* the loops write a comma before every element but the first *)
+Definition Q : list Z := lit """".     (* quote *)
+Definition CM : list Z := lit ",".
+Definition CL : list Z := lit ":".
+
+(* The text below is written token by token (key, colon, value, comma ...), right-nested; it is
+   the same byte string as the Go code's concatenation of longer literals (the correspondence
+   run compares it with what JSON() wrote).  The loops write a comma before every element but
+   the first. *)
 Fixpoint ips_loop (first : bool) (l : list (list Z)) : list Z :=
   match l with
   | [] => []
-  | x :: r => (if first then [] else lit ",") ++ lit """" ++ x ++ lit """" ++ ips_loop false r
+  | x :: r => if first then Q ++ x ++ Q ++ ips_loop false r else CM ++ Q ++ x ++ Q ++ ips_loop false r
   end.
+Definition netdev_json (d : netdev) (k : list Z) : list Z :=
+  lit "{" ++ lit """name""" ++ CL ++ n_name d ++
+  CM ++ lit """mac""" ++ CL ++ Q ++ n_mac d ++ Q ++
+  CM ++ lit """ip""" ++ CL ++ lit "[" ++ ips_loop true (n_ips d) ++ lit "]" ++ lit "}" ++ k.
 Fixpoint net_loop (first : bool) (l : list netdev) : list Z :=
   match l with
   | [] => []
-  | d :: r => (if first then [] else lit ",") ++
-              lit "{""name"":" ++ n_name d ++ lit "," ++ lit """mac"":""" ++ n_mac d ++ lit """,""ip"":[" ++
-              ips_loop true (n_ips d) ++ lit "]}" ++ net_loop false r
+  | d :: r => if first then netdev_json d (net_loop false r) else CM ++ netdev_json d (net_loop false r)
   end.
+Definition proxy_json (p : list Z * list Z) (k : list Z) : list Z :=
+  lit "{" ++ lit """name""" ++ CL ++ fst p ++ CM ++ lit """address""" ++ CL ++ lit " " ++ snd p ++ lit "}" ++ k.
 Fixpoint proxy_loop (first : bool) (l : list (list Z * list Z)) : list Z :=
   match l with
   | [] => []
-  | (n, b) :: r => (if first then [] else lit ",") ++
-                   lit "{""name"":" ++ n ++ lit ",""address"": " ++ b ++ lit "}" ++ proxy_loop false r
+  | p :: r => if first then proxy_json p (proxy_loop false r) else CM ++ proxy_json p (proxy_loop false r)
   end.
 
+Definition work_json (w : option workh) (k : list Z) : list Z :=
+  match w with
+  | Some w => lit "{" ++ lit """start_hour""" ++ CL ++ w_sh w ++ CM ++ lit """start_min""" ++ CL ++ w_sm w ++
+              CM ++ lit """end_hour""" ++ CL ++ w_eh w ++ CM ++ lit """end_min""" ++ CL ++ w_em w ++
+              CM ++ lit """days""" ++ CL ++ Q ++ w_days w ++ Q ++ lit "}" ++ k
+  | None => lit "{" ++ lit "}" ++ k
+  end.
+Definition opt_member (key : list Z) (o : option (list Z)) (k : list Z) : list Z :=
+  match o with Some v => CM ++ key ++ CL ++ v ++ k | None => k end.
+Definition proxies_member (l : list (list Z * list Z)) (k : list Z) : list Z :=
+  match l with [] => k | _ => CM ++ lit """proxy""" ++ CL ++ lit "[" ++ proxy_loop true l ++ lit "]" ++ k end.
+
 Definition session_json (f : sess) : list Z :=
-  lit "{" ++ lit """id"":""" ++ j_id f ++ lit """," ++ lit """hash"":""" ++ j_hash f ++ lit """," ++
-  lit """channel"":" ++ jbool (j_channel f) ++ lit "," ++ lit """device"":{" ++
-  lit """id"":""" ++ j_full f ++ lit """," ++ lit """user"":" ++ j_user f ++ lit "," ++
-  lit """hostname"":" ++ j_host f ++ lit "," ++ lit """version"":" ++ j_ver f ++ lit "," ++
-  lit """arch"":""" ++ j_arch f ++ lit """," ++ lit """os"":" ++ j_os f ++ lit "," ++
-  lit """elevated"":" ++ jbool (j_elev f) ++ lit "," ++ lit """capabilities"":""" ++ j_caps f ++ lit """," ++
-  lit """domain"":" ++ jbool (j_domain f) ++ lit "," ++ lit """pid"":" ++ j_pid f ++ lit "," ++
-  lit """ppid"":" ++ j_ppid f ++ lit "," ++ lit """network"":[" ++
-  net_loop true (j_net f) ++
-  lit "]},""created"":""" ++ j_created f ++ lit """," ++ lit """last"":""" ++ j_last f ++ lit """," ++
-  lit """via"":" ++ j_via f ++ lit "," ++ lit """sleep"":" ++ j_sleep f ++ lit "," ++
-  lit """jitter"":" ++ j_jitter f ++ lit "," ++
-  (lit """kill_date"":""" ++ j_kill f ++ lit """,") ++
-  (match j_work f with
-   | Some w => lit """work_hours"":{""start_hour"":" ++ w_sh w ++ lit "," ++ lit """start_min"":" ++ w_sm w ++ lit "," ++
-               lit """end_hour"":" ++ w_eh w ++ lit "," ++ lit """end_min"":" ++ w_em w ++ lit "," ++
-               lit """days"":""" ++ w_days w ++ lit """}"
-   | None => lit """work_hours"":{}"
-   end) ++
-  (match j_cname f with Some n => lit ",""connector_name"":" ++ n | None => [] end) ++
-  (match j_conn f with Some n => lit ",""connector"":" ++ n | None => [] end) ++
-  (match j_proxies f with
-   | [] => []
-   | l => lit ",""proxy"":[" ++ proxy_loop true l ++ lit "]"
-   end) ++
-  lit "}".
+  lit "{" ++ lit """id""" ++ CL ++ Q ++ j_id f ++ Q ++
+  CM ++ lit """hash""" ++ CL ++ Q ++ j_hash f ++ Q ++
+  CM ++ lit """channel""" ++ CL ++ jbool (j_channel f) ++
+  CM ++ lit """device""" ++ CL ++
+    lit "{" ++ lit """id""" ++ CL ++ Q ++ j_full f ++ Q ++
+    CM ++ lit """user""" ++ CL ++ j_user f ++
+    CM ++ lit """hostname""" ++ CL ++ j_host f ++
+    CM ++ lit """version""" ++ CL ++ j_ver f ++
+    CM ++ lit """arch""" ++ CL ++ Q ++ j_arch f ++ Q ++
+    CM ++ lit """os""" ++ CL ++ j_os f ++
+    CM ++ lit """elevated""" ++ CL ++ jbool (j_elev f) ++
+    CM ++ lit """capabilities""" ++ CL ++ Q ++ j_caps f ++ Q ++
+    CM ++ lit """domain""" ++ CL ++ jbool (j_domain f) ++
+    CM ++ lit """pid""" ++ CL ++ j_pid f ++
+    CM ++ lit """ppid""" ++ CL ++ j_ppid f ++
+    CM ++ lit """network""" ++ CL ++ lit "[" ++ net_loop true (j_net f) ++ lit "]" ++ lit "}" ++
+  CM ++ lit """created""" ++ CL ++ Q ++ j_created f ++ Q ++
+  CM ++ lit """last""" ++ CL ++ Q ++ j_last f ++ Q ++
+  CM ++ lit """via""" ++ CL ++ j_via f ++
+  CM ++ lit """sleep""" ++ CL ++ j_sleep f ++
+  CM ++ lit """jitter""" ++ CL ++ j_jitter f ++
+  CM ++ lit """kill_date""" ++ CL ++ Q ++ j_kill f ++ Q ++
+  CM ++ lit """work_hours""" ++ CL ++ work_json (j_work f) (
+  opt_member (lit """connector_name""") (j_cname f) (
+  opt_member (lit """connector""") (j_conn f) (
+  proxies_member (j_proxies f) (lit "}")))).
+
+(* the contract of the leaves, as a boolean so that the correspondence run checks it on what the
+   implementation really produced *)
+Definition netdev_okb (d : netdev) : bool := is_jstr (n_name d) && is_plain (n_mac d) && forallb is_plain (n_ips d).
+Definition work_okb (w : option workh) : bool :=
+  match w with
+  | Some w => is_jnum (w_sh w) && is_jnum (w_sm w) && is_jnum (w_eh w) && is_jnum (w_em w) && is_plain (w_days w)
+  | None => true end.
+Definition opt_okb (o : option (list Z)) : bool := match o with Some v => is_jstr v | None => true end.
+Definition sess_okb (f : sess) : bool :=
+  is_plain (j_id f) && is_plain (j_hash f) && is_plain (j_full f) &&
+  is_jstr (j_user f) && is_jstr (j_host f) && is_jstr (j_ver f) && is_plain (j_arch f) && is_jstr (j_os f) &&
+  is_plain (j_caps f) && is_jnum (j_pid f) && is_jnum (j_ppid f) && forallb netdev_okb (j_net f) &&
+  is_plain (j_created f) && is_plain (j_last f) && is_jstr (j_via f) && is_jnum (j_sleep f) && is_jnum (j_jitter f) &&
+  is_plain (j_kill f) && work_okb (j_work f) && opt_okb (j_cname f) && opt_okb (j_conn f) &&
+  forallb (fun p => is_jstr (fst p) && is_jstr (snd p)) (j_proxies f).
 
 (* =========================================================================================
    correspondence cases
@@ -741,6 +779,6 @@ Definition check (c : case) : bool :=
     let r := receive_bytes self input in
     alloc_class_ok (alloc r) (len input) cls &&
     ((cls =? 2) || res_eqb zlist_eqb (outcome r) out)
-  | CJson f text => zlist_eqb (session_json f) text
+  | CJson f text => zlist_eqb (session_json f) text && sess_okb f
 
   end.
